@@ -359,3 +359,46 @@ func (w *World) unreachableEnumDefault(pn *ssa.Panic) string {
 	}
 	return fmt.Sprintf("the panic is the fall-through of a switch over parameter %s of type %s whose cases cover all %d declared constants; the module never converts a non-constant to that type or computes with it, so no input reaches it", par.Name(), short(named.String()), nconst)
 }
+
+// c03R7: the 502 synthesised for a failed upstream contact must reach the
+// client as a well-formed, self-delimiting response, because the connection
+// goes on serving requests afterwards. The only place where the core changes
+// the framing of a response is the tunnel's 200 (ContentLength = -1: the
+// tunnel bytes follow); that store must never apply to a synthesised error.
+func c03R7(r *Report) {
+	r.Guard("C03.R7", "a synthesised error response keeps its own framing: the core overrides ContentLength only on a response that cannot be a synthesised 4xx/5xx", func() {
+		n := 0
+		for _, f := range r.W.Funcs("") {
+			for _, in := range instrs(f) {
+				st, ok := in.(*ssa.Store)
+				if !ok {
+					continue
+				}
+				fa, ok := st.Addr.(*ssa.FieldAddr)
+				if !ok || fa.X.Type().String() != "*net/http.Response" {
+					continue
+				}
+				switch fieldObj(fa).Name() {
+				case "ContentLength", "TransferEncoding", "Uncompressed":
+				default:
+					continue
+				}
+				n++
+				r.Touch(f)
+				bad := ""
+				for _, leaf := range resolveAll(fa.X) {
+					if c, isC := leaf.(*ssa.Call); isC && calleeName(c) == nNewResp {
+						if code, isK := constInt(c.Call.Args[0]); isK && code >= 400 {
+							bad = fmt.Sprintf("NewResponse(%d, ...)", code)
+						}
+					}
+				}
+				r.Decide("flow", fmt.Sprintf("%s: %s override #%d applies to tunnel/relayed responses only", fnName(f), fieldObj(fa).Name(), n), bad == "", "the response whose framing is overridden never resolves to a synthesised error response", "the framing override also reaches "+bad+": the error response goes out without a length on a connection that stays open, so the client hangs on its body or takes the next response for it", st.Pos())
+			}
+		}
+		if n == 0 {
+			r.Note("C03.R7: the core no longer overrides the framing of any response")
+			r.Hold("flow", "core framing overrides", "none present")
+		}
+	})
+}
